@@ -263,3 +263,39 @@ package schema
 //@ func ToolMessage
 //@   props C17
 //@   ensures[fields] result != nil && fresh(result) && result.Role == Tool && result.Content == content && result.ToolCallID == toolCallID && len(result.ToolCalls) == 0
+
+//@ func ConcatMessages
+//@   props C14
+//@   modifies fresh()
+//@   ensures[one_outcome] result0 == nil || result1 == nil
+//@   ensures[nil_chunk_is_error] @C14 (exists(i int :: 0 <= i && i < len(msgs) && msgs[i] == nil)) ==> result1 != nil
+//@   ensures[role_consistent] @C14 result0 != nil ==> forall(i int :: 0 <= i && i < len(msgs) ==> msgs[i].Role == "" || msgs[i].Role == result0.Role)
+//@   ensures[name_consistent] @C14 result0 != nil ==> forall(i int :: 0 <= i && i < len(msgs) ==> msgs[i].Name == "" || msgs[i].Name == result0.Name)
+//@   ensures[tool_call_id_consistent] @C14 result0 != nil ==> forall(i int :: 0 <= i && i < len(msgs) ==> msgs[i].ToolCallID == "" || msgs[i].ToolCallID == result0.ToolCallID)
+//@   ensures[usage_is_max] @C14 result0 != nil ==> forall(i int :: 0 <= i && i < len(msgs) && msgs[i].ResponseMeta != nil && msgs[i].ResponseMeta.Usage != nil ==> result0.ResponseMeta != nil && result0.ResponseMeta.Usage != nil && msgs[i].ResponseMeta.Usage.PromptTokens <= result0.ResponseMeta.Usage.PromptTokens && msgs[i].ResponseMeta.Usage.CompletionTokens <= result0.ResponseMeta.Usage.CompletionTokens && msgs[i].ResponseMeta.Usage.TotalTokens <= result0.ResponseMeta.Usage.TotalTokens)
+//@   loop 1:
+//@     modifies fresh()
+//@     invariant[seen_nonnil] forall(i int :: 0 <= i && i < $i ==> msgs[i] != nil)
+//@     invariant[fresh_parts] (contents == nil || fresh(contents)) && (toolCalls == nil || fresh(toolCalls)) && fresh(extraList) && (ret.ResponseMeta == nil || (fresh(ret.ResponseMeta) && (ret.ResponseMeta.Usage == nil || fresh(ret.ResponseMeta.Usage)) && (ret.ResponseMeta.LogProbs == nil || (fresh(ret.ResponseMeta.LogProbs) && (ret.ResponseMeta.LogProbs.Content == nil || fresh(ret.ResponseMeta.LogProbs.Content))))))
+//@     invariant[role_consistent] forall(i int :: 0 <= i && i < $i ==> msgs[i].Role == "" || msgs[i].Role == ret.Role)
+//@     invariant[name_consistent] forall(i int :: 0 <= i && i < $i ==> msgs[i].Name == "" || msgs[i].Name == ret.Name)
+//@     invariant[tool_call_id_consistent] forall(i int :: 0 <= i && i < $i ==> msgs[i].ToolCallID == "" || msgs[i].ToolCallID == ret.ToolCallID)
+//@     invariant[usage_is_max] forall(i int :: 0 <= i && i < $i && msgs[i].ResponseMeta != nil && msgs[i].ResponseMeta.Usage != nil ==> ret.ResponseMeta != nil && ret.ResponseMeta.Usage != nil && msgs[i].ResponseMeta.Usage.PromptTokens <= ret.ResponseMeta.Usage.PromptTokens && msgs[i].ResponseMeta.Usage.CompletionTokens <= ret.ResponseMeta.Usage.CompletionTokens && msgs[i].ResponseMeta.Usage.TotalTokens <= ret.ResponseMeta.Usage.TotalTokens)
+//@   loop 2:
+//@     modifies fresh()
+
+//@ func concatToolCalls
+//@   props C14
+//@   modifies fresh()
+//@   ensures[one_outcome] result0 == nil || result1 == nil
+//@   loop 1:
+//@     modifies fresh()
+//@     invariant[fresh_parts] (merged == nil || fresh(merged)) && fresh(m)
+//@     invariant[positions_in_range] forall(k int, j int :: in(k, m) && 0 <= j && j < len(m[k]) ==> 0 <= m[k][j] && m[k][j] < len(chunks))
+//@     invariant[lists_fresh] forall(k int :: in(k, m) ==> m[k] == nil || fresh(m[k]))
+//@   loop 2:
+//@     modifies fresh()
+//@     invariant[fresh_parts] (merged == nil || fresh(merged)) && fresh(m)
+//@     invariant[positions_in_range] forall(k int, j int :: in(k, m) && 0 <= j && j < len(m[k]) ==> 0 <= m[k][j] && m[k][j] < len(chunks))
+//@   loop 3:
+//@     modifies fresh()
